@@ -10,6 +10,23 @@ for name, e in exp.items():
         if g != e:
             bad.append("package-level variables written outside init: got %s want %s" % (g, e))
         continue
+    if name == "#init_only":
+        if facts["initialisation_only_functions"] != e:
+            bad.append("initialisation-only functions: got %s want %s" % (facts["initialisation_only_functions"], e))
+        continue
+    if name == "#absent":
+        for n in e:
+            if n in fn:
+                bad.append("%s must not be part of the run-time footprint (initialisation-only / build tag verif)" % n)
+        continue
+    if name == "#special":
+        if facts["special_imports"] != e:
+            bad.append("special imports: got %s want %s" % (facts["special_imports"], e))
+        continue
+    if name == "#pool_users":
+        if facts["sync_pool_users"] != e:
+            bad.append("sync.Pool users: got %s want %s" % (facts["sync_pool_users"], e))
+        continue
     a = fn.get(name)
     if a is None:
         bad.append("%s: not reported" % name); continue
@@ -25,4 +42,4 @@ if bad:
     print("extract_fp SELF TEST FAILED (the translator no longer reports the planted footprints):")
     print("\n".join("  " + b for b in bad[:10]))
     sys.exit(1)
-print("extract_fp self test: %d planted footprints reported as expected" % (len(exp) - 1))
+print("extract_fp self test: %d planted footprints reported as expected" % len([k for k in exp if not k.startswith("#")]))
